@@ -141,6 +141,31 @@ func (p *Program) verifyFunction(fn *ssa.Function, fc *FuncContract, noAssume ma
 			st.Assume(g)
 		}
 	}
+	if fc != nil && len(fc.Loops) > 0 {
+		// a loop contract whose loop is gone (deleted, or moved into another function) binds to nothing
+		have := map[int]bool{}
+		li := x.prog.loopsOf(fn)
+		for _, n := range li.ordinal {
+			have[n] = true
+		}
+		var ns []int
+		for n := range fc.Loops {
+			if !have[n] {
+				ns = append(ns, n)
+			}
+		}
+		sort.Ints(ns)
+		for _, n := range ns {
+			lc := fc.Loops[n]
+			why := fmt.Errorf("loop %d of the contract is not a loop of %s any more", n, res.Name)
+			if lc.At != "" {
+				why = fmt.Errorf("no loop of %s has a header containing %q (loop %d of the contract)", res.Name, lc.At, n)
+			}
+			for _, c := range lc.Invariants {
+				st.unbound("inv-init", fmt.Sprintf("L%d:%s", n, c.Label), propsOr(c.Props, x.safetyProps()), fn.Pos(), c.Expr, why)
+			}
+		}
+	}
 	x.entry = st.Clone()
 	x.entry.X = x
 	x.vacuity = append(x.vacuity, &Obligation{Name: res.Name + "#vacuity:requires-sat", Kind: "vacuity", Func: res.Name, Assume: st.PC[:len(st.PC):len(st.PC)], Goal: True, Vacuity: true})
